@@ -57,6 +57,10 @@ def is_wf(ops):
             if op[1] in ws:
                 return False
             ws.add(op[1])
+        elif op[0] == 'whenr':
+            if op[1] in ws or op[2] in ws or op[1] == op[2]:
+                return False
+            ws.update(op[1:3])
     return True
 
 
@@ -78,6 +82,11 @@ def make_wf(ops):
             if op[1] in ws:
                 continue
             ws.add(op[1])
+            out.append(op)
+        elif op[0] == 'whenr':
+            if op[1] in ws or op[2] in ws or op[1] == op[2]:
+                continue
+            ws.update(op[1:3])
             out.append(op)
         else:
             out.append(op)
@@ -104,7 +113,9 @@ class P(core.Prop):
             'answered ok 85% / rejected, sometimes one answer too many), progress 10/50/100 (100% also between the '
             'attach answers in half of them, and repeated 100), other status events, the launch timeout, exit with '
             'code 0/1/255 or signal 15/9, '
-            'extra when_connected() callers at any point, reactor shutdown; with/without timeout, caller data '
+            'extra when_connected() callers at any point (40% of them with a callback that calls when_connected() '
+            'again from inside the delivery), reactor shutdown; half of the runs without a caller directory enter '
+            'through the deprecated txtorcon.launch_tor() instead of launch(); with/without timeout, caller data '
             'directory, kill_on_stderr. Orders: the causal order with some stimuli moved, or a full shuffle '
             '(kept physically possible: one exit, no process output after it). Every permutation of '
             '{stdout, connect, auth, ack, 100%, timeout, exit} is enumerated (quick: 5040 orders, the line cut in two adjacent '
@@ -122,7 +133,10 @@ class P(core.Prop):
                '(raises if a protocol is already attached, sets config.protocol at once, returns a Deferred): the '
                'Deferred fires after case["attach"] OAttach answers (0 = already fired), errbacks on a rejected one; '
                'the round trips are separate stimuli, not commands in the connection FIFO',
-               'tempfile.tempdir points to a scratch dir']
+               'tempfile.tempdir points to a scratch dir',
+               'launch_tor(config, reactor, tor_binary, progress_updates, connection_creator, timeout, kill_on_stderr) '
+               'is compared with launch() through the same model: the Coq case does not say which entry point was '
+               'used; stdout=/stderr= are left None in both']
     assumptions = ['waiter callbacks do not call back into the protocol', 'stdout is ASCII',
                    'processEnded is delivered once, after the last stdout/stderr data',
                    'Tor sends STATUS_CLIENT events on a connection only after it accepted SETEVENTS there']
@@ -225,14 +239,20 @@ class P(core.Prop):
                 return 4
             return 9
 
-        def watch(d, w, want_tor=False):
+        def watch(d, w, want_tor=False, again=None):
+            """again = w': the callback asks when_connected() once more, from inside the delivery; that
+            Deferred is waiter w'"""
             def ok(v):
                 good = isinstance(v, Tor) if want_tor else (v is reactor.process_protocol)
                 cur.append(['fired', w, 0 if good else 99])
+                if again is not None:
+                    watch(reactor.process_protocol.when_connected(), again)
                 return None
 
             def bad(f):
                 cur.append(['fired', w, kind_of(f)])
+                if again is not None:
+                    watch(reactor.process_protocol.when_connected(), again)
                 return None
             d.addCallbacks(ok, bad)
 
@@ -267,11 +287,27 @@ class P(core.Prop):
         try:
             chunks = []
             try:
-                d0 = controller.launch(
-                    reactor, tor_binary='/bin/echo', socks_port=9050, connection_creator=creator,
-                    timeout=(TIMEOUT if case['timeout'] else None), data_directory=ddir,
-                    kill_on_stderr=case['kill_on_stderr'], progress_updates=progress_cb, _tor_config=config)
-                watch(d0, 0, want_tor=True)
+                if case.get('entry') == 'launch_tor':
+                    # the deprecated, still exported entry point: forwards tor_binary, progress_updates,
+                    # connection_creator, timeout, kill_on_stderr, stdout, stderr and the config to launch();
+                    # no data_directory / socks_port argument (SocksPort is taken from the config)
+                    import warnings
+                    from txtorcon.torconfig import launch_tor
+                    assert ddir is None
+                    config.SocksPort = 9050
+                    with warnings.catch_warnings():
+                        warnings.simplefilter('ignore')
+                        d0 = launch_tor(
+                            config, reactor, tor_binary='/bin/echo', connection_creator=creator,
+                            timeout=(TIMEOUT if case['timeout'] else None),
+                            kill_on_stderr=case['kill_on_stderr'], progress_updates=progress_cb)
+                    watch(d0, 0, want_tor=False)       # fires with tor.process
+                else:
+                    d0 = controller.launch(
+                        reactor, tor_binary='/bin/echo', socks_port=9050, connection_creator=creator,
+                        timeout=(TIMEOUT if case['timeout'] else None), data_directory=ddir,
+                        kill_on_stderr=case['kill_on_stderr'], progress_updates=progress_cb, _tor_config=config)
+                    watch(d0, 0, want_tor=True)
             except Exception:
                 cur.append(['raised', 9])
             pp = reactor.process_protocol
@@ -351,6 +387,8 @@ class P(core.Prop):
                         pp.processEnded(st)
                     elif k == 'when':
                         watch(pp.when_connected(), op[1])
+                    elif k == 'whenr':
+                        watch(pp.when_connected(), op[1], again=op[2])
                     elif k == 'shutdown':
                         for (_, _, f, a, kw) in reactor.triggers:
                             f(*a, **kw)
@@ -398,6 +436,8 @@ class P(core.Prop):
             return C('OExit', C('XCode' if op[1] == 'code' else 'XSignal', N(op[2])))
         if k == 'when':
             return C('OWhen', N(op[1]))
+        if k == 'whenr':
+            return C('OWhenR', N(op[1]), N(op[2]))
         if k == 'shutdown':
             return 'OShutdown'
         raise ValueError(op)
@@ -443,8 +483,9 @@ class P(core.Prop):
     def kind(self, case, obs):
         held = any(o[0] == 'attach' and any(e[0] == 'fired' and e[1] == 0 for e in ch)
                    for o, ch in zip(case['ops'], obs['chunks'][1:]))
-        return '%s/%s%s%s' % (self._outcome(obs), 'userdir' if case['user_dir'] else 'tmpdir',
-                              '' if case['timeout'] else '/no-timeout', '/result-after-attach' if held else '')
+        return '%s/%s%s%s%s' % (self._outcome(obs), 'userdir' if case['user_dir'] else 'tmpdir',
+                                '' if case['timeout'] else '/no-timeout', '/result-after-attach' if held else '',
+                                '/via-launch_tor' if case.get('entry') == 'launch_tor' else '')
 
     def nontrivial(self, case, obs):
         ops = case['ops']
@@ -535,11 +576,15 @@ class P(core.Prop):
         elif r < 0.85:
             rng.shuffle(ops)
         for w in range(1, rng.choice([1, 2, 2, 3, 4])):
-            ops.insert(rng.randrange(0, len(ops) + 1), ['when', w])
+            # 40%: the caller's callback asks when_connected() again while it is being told
+            ops.insert(rng.randrange(0, len(ops) + 1), ['whenr', w, 10 + w] if rng.random() < 0.4 else ['when', w])
         if rng.random() < 0.2:
             ops.insert(rng.randrange(max(0, len(ops) - 2), len(ops) + 1), ['shutdown'])
         ops = make_wf(ops)
-        return {'timeout': rng.random() < 0.8, 'user_dir': rng.random() < 0.4,
+        user_dir = rng.random() < 0.4
+        # the deprecated entry point has no data_directory argument
+        entry = 'launch_tor' if (not user_dir and rng.random() < 0.5) else 'launch'
+        return {'timeout': rng.random() < 0.8, 'user_dir': user_dir, 'entry': entry,
                 'kill_on_stderr': rng.random() < 0.8, 'attach': n_attach, 'ops': ops}
 
     def generate(self, rng, tier, n):
@@ -597,9 +642,10 @@ class P(core.Prop):
             for _ in range(n_attach):
                 i = rng.randrange(i + 1, len(ops) + 1)
                 ops.insert(i, ['attach', True])
-            ops = make_wf(ops + [['when', 1]])
+            ops = make_wf(ops + [['whenr', 1, 2] if n % 3 == 0 else ['when', 1]])
             t, u = settings[n % len(settings)]
-            out.append({'timeout': t, 'user_dir': u, 'kill_on_stderr': True, 'attach': n_attach, 'ops': ops})
+            out.append({'timeout': t, 'user_dir': u, 'kill_on_stderr': True, 'attach': n_attach, 'ops': ops,
+                        'entry': 'launch_tor' if (not u and (n // 4) % 2) else 'launch'})
         desc = 'every order of {stdout%s, connect, auth, ack, 100%%, timeout, exit}: %d histories' % (
             ' (line cut in two)' if tier == 'quick' else ' in 2 pieces', len(out))
         # the attach stage: connection up to RESETCONF sent, then every order of the last ack, the attach
@@ -620,8 +666,9 @@ class P(core.Prop):
                             ops.append({'ack3': ['ack', 0, True], 'att0': ['attach', oks[0]], 'att1': ['attach', oks[1]],
                                         'p100': ['progress', 0, 100], 'timeout': ['timeout'],
                                         'exit': ['exit', 'code', 0] if m % 2 else ['exit', 'signal', 15]}[it])
-                        ops.insert(rng.randrange(len(pre), len(ops) + 1), ['when', 1])
+                        ops.insert(rng.randrange(len(pre), len(ops) + 1), ['whenr', 1, 2] if m % 3 == 0 else ['when', 1])
                         out.append({'timeout': True, 'user_dir': bool(m % 2), 'kill_on_stderr': True,
+                                    'entry': 'launch_tor' if m % 4 == 2 else 'launch',
                                     'attach': n_attach, 'ops': ops})
         desc += ' + every order of {RESETCONF ack, 2 attach answers ok/rejected, 100%%, %s} for 1 and 2 round trips: %d' % (
             'exit | timeout' if tier == 'quick' else 'exit, timeout', m)
@@ -657,6 +704,11 @@ class P(core.Prop):
                 yield dict(case, **{key: False})
         if case.get('attach', 0) > 0:
             yield dict(case, attach=case['attach'] - 1)
+        if case.get('entry') == 'launch_tor':
+            yield dict(case, entry='launch')
+        for i in range(n):
+            if ops[i][0] == 'whenr':
+                yield dict(case, ops=ops[:i] + [['when', ops[i][1]]] + ops[i + 1:])
 
     finding_preds = {}
 
